@@ -46,13 +46,25 @@ class ComponentLevel4( ComponentLevel3 ):
     # number of times.
     # Update: we should use cls.__dict__ to get all added methods!
 
-    for name in cls.__dict__:
+    # Update: ... of the class and of the user classes it is derived from
+    for name in inst._user_class_attributes():
       if name[0] != '_': # filter private variables
         field = getattr( inst, name )
         if callable( field ):
           setattr( inst, name, field )
 
     return inst
+
+  def _user_class_attributes( s ):
+    """ The attributes defined by the class of s and by the classes it
+    inherits from, up to the classes of the DSL itself. """
+    names = []
+    for c in s.__class__.__mro__:
+      # the modules of the DSL are pymtl3.dsl.<module>
+      if c.__module__.startswith( "pymtl3.dsl." ) and c.__module__.count( "." ) == 2:
+        break
+      names.extend( x for x in c.__dict__ if x not in names )
+    return names
 
   # Override
   def _collect_vars( s, m ):
